@@ -38,7 +38,7 @@ structure Stmt where
   btype : Option Ty
   /-- `used_variables()` -/
   uses : List Name
-  /-- `source` of each attached assertion -/
+  /-- root variable of the `source` of each attached assertion (`source.split(".")[0]`) -/
   asserts : List Name
   /-- `_transform_assign_to_expr(node) is not node` -/
   simpleAssign : Bool
@@ -216,6 +216,29 @@ def ruGo : List Stmt → List Name × List Stmt
 
 /-- `remove_unused_variables()` -/
 def TC.removeUnused (tc : TC) : TC := tc.withStmts (ruGo tc.stmts).2
+
+/-! #### the same pass with `proposed_fixes/C19-remove-unused-keeps-assertions.diff` applied
+(`asserts` holds the root variable of each assertion source): the variables read by a statement's
+assertions are alive at the end of that statement, and the rebuilt statement keeps its assertions.
+`ruGo` / `Stmt.unbound` above stay the snapshot's behaviour (C19 and C22 refer to them). -/
+
+def Stmt.unboundKeep (s : Stmt) : Stmt :=
+  { s with bound := none, btype := none, simpleAssign := false }
+
+def ruKeep : List Stmt → List Name × List Stmt
+  | [] => ([], [])
+  | s :: rest =>
+    let r := ruKeep rest
+    let alive := r.1 ++ s.asserts
+    match s.bound with
+    | some bv =>
+      if bv ∈ alive then (alive.filter (fun x => decide (x ≠ bv)) ++ s.uses, s :: r.2)
+      else (alive ++ s.uses, (if s.simpleAssign then s.unboundKeep else s) :: r.2)
+    | none => (alive ++ s.uses, s :: r.2)
+
+/-- `remove_unused_variables()`; `keep = true`: the tree has the C19 repair -/
+def TC.removeUnusedV (keep : Bool) (tc : TC) : TC :=
+  if keep then tc.withStmts (ruKeep tc.stmts).2 else tc.removeUnused
 
 /-! ### `clone`, `append_test_case_from` -/
 
